@@ -1,4 +1,3 @@
-use quote::quote;
 use syn::{Data, DeriveInput, Fields, Meta, Type};
 
 use super::{
